@@ -41,8 +41,8 @@ def build(rng, g, tdm=True):
         rows = rng.choice([1, 1, 1, 2, 3])
         cols = rng.randint(1, 6)
         if rng.random() < 0.12:
-            # a long p-array written with full-precision values
-            rows, cols = 1, rng.choice([12, 20, 40])
+            # a long p-array written with full-precision values (now and then more than a thousand elements)
+            rows, cols = 1, rng.choice([12, 20, 40] + ([1001, 1500] if rng.random() < 0.15 else []))
             els = [repr(rng.uniform(-3, 3)) if vt != "int" else str(rng.randint(0, 10 ** 9)) for _ in range(cols)]
             if vt == "complex":
                 els = ["%r%+rj" % (rng.uniform(-3, 3), rng.uniform(-3, 3)) for _ in range(cols)]
@@ -134,6 +134,18 @@ def check_loaded(ctx, text, tags, declared_p, control=False):
         return ctx.violation("is-template", "is_template()=%s but written parameters are %s" % (P.is_template(), sorted(want)), witness)
     if control:
         return
+    # a program keeps its p-arrays when other scripts are loaded afterwards
+    keep = getattr(ctx, "_c15_prev", None)
+    if keep is not None:
+        (pp, dig, txt) = keep
+        now = content.content_jsonable(content.program_content(pp), with_vars=True)
+        if now != dig:
+            ctx._c15_prev = None
+            return ctx.violation("earlier-program-changed-by-later-load", "the variables/operations of a tdm program loaded earlier changed when the next script was loaded", {"text": txt, "then": text})
+    try:
+        ctx._c15_prev = (P, content.content_jsonable(c, with_vars=True), text)
+    except AttributeError:
+        pass
     # round trip: p-arrays, references, operations
     import blackbird
 
